@@ -624,6 +624,18 @@ void c19_run(Tape& t, Ctx& ctx, Opt& opt, const TM& tm, const Problem& p, const 
     cmax = std::max(cmax, std::max(std::fabs(cp), std::fabs(cm)));
   }
   double nu = (g - num).norm();
+  // for correct functors the two gradients the self-check is about can differ only by what central differences at this step
+  // resolve: a generous bound (1e-3 of the larger norm + 100 x the rounding level of the cost / eps + the default tolerance);
+  // finer agreement is C07's subject, a gross disagreement (a whole block of the gradient missing) makes every verdict meaningless
+  {
+    const double noise_rel19 = S == 2 ? 1e-14 : (S == 3 ? 1e-13 : 1e-11);
+    double gn = std::max(g.norm(), num.norm());
+    double allow = 1e-3 * gn + 100 * (8 * DBL_EPSILON + noise_rel19) * cmax / eps * std::sqrt((double)n) + 1e-4;
+    ctx.maxi(std::string("c19_nu_over_allow_") + oname(), nu / allow);
+    VCHECK(ctx, nu <= allow, "correct-functors-inconsistent",
+           who << ": with correct cost functors the gradient written by evaluate and the central differences of the optimizer's own cost differ by " << g17(nu) << " (norms " << g17(g.norm()) << " / " << g17(num.norm())
+               << "), far beyond what differences at eps=" << g6(eps) << " resolve (" << g17(allow) << "): no verdict of the self-check can be trusted");
+  }
   // state a plain evaluation leaves behind (fresh workspace)
   typename Opt::Workspace wfresh;
   Eigen::VectorXd gfresh;
